@@ -341,6 +341,8 @@ func (s *Sorts) prelude() string {
 (define-fun slice_nil () Slice (mk_slice 0 0 0 0))
 (declare-datatypes ((Iface 0)) (((mk_iface (ityp Int) (ival Int)))))
 (define-fun iface_nil () Iface (mk_iface 0 0))
+(declare-fun ix (Int Int) Int)
+(assert (forall ((o Int) (k Int)) (! (= (ix o k) (+ o k)) :pattern ((ix o k)))))
 (define-fun tdiv ((a Int) (b Int)) Int (ite (>= a 0) (ite (> b 0) (div a b) (- (div a (- b)))) (ite (> b 0) (- (div (- a) b)) (div (- a) (- b)))))
 (define-fun tmod ((a Int) (b Int)) Int (- a (* b (tdiv a b))))
 (define-fun wrap_u8 ((x Int)) Int (mod x 256))
@@ -418,4 +420,13 @@ func sortedKeys[V any](m map[string]V) []string {
 	}
 	sort.Strings(ks)
 	return ks
+}
+
+// ixTerm: absolute index of element k of a slice with offset off. The uninterpreted `ix`
+// (defined by an axiom as off+k) keeps arithmetic out of quantifier patterns.
+func ixTerm(off, k Term) Term {
+	if off == "0" {
+		return k
+	}
+	return "(ix " + off + " " + k + ")"
 }
